@@ -24,7 +24,7 @@ theorem revSpec_origin (d : Desc) (t subj : Nat) (hd : d.dig ≠ 0) (ht : t ≠ 
         ∃ e ∈ x :: xs, e' = e ∨ (e' = { e with ann := { e.ann with tag := 0 } } ∧ e.ann.tag = t) :=
       fun ⟨e, h1, h2⟩ => ⟨e, List.mem_cons_of_mem _ h1, h2⟩
     by_cases hx : x.dig = d.dig
-    · by_cases h1 : found = true ∧ (x.ann.isNil = true ∨ x.ann.tag = t)
+    · by_cases h1 : found = true ∧ (x.ann.len = 0 ∨ x.ann.tag = t)
       · obtain ⟨hf, h1'⟩ := h1
         subst hf
         rw [revSpec_cons_drop _ xs (step_drop d t subj hd ht x hx h1')] at he
@@ -235,17 +235,24 @@ def dropChild (ix1 : Index) (g : Nat) : Index :=
 theorem dropChild_manifests (ix1 : Index) (g : Nat) : (dropChild ix1 g).manifests = ix1.manifests := by
   unfold dropChild; split <;> rfl
 
+theorem placeDesc_shape (l : List Desc) (d : Desc) (t s : Nat) :
+    (∃ mi, mi < l.length ∧ placeDesc l d t s = l.set mi d) ∨ placeDesc l d t s = l ++ [d] := by
+  unfold placeDesc
+  split
+  · rename_i mi hfi
+    exact Or.inl ⟨mi, by simpa using (findIdx_spec _ _ 0 mi hfi).2, rfl⟩
+  · split
+    · rename_i mi hfi
+      exact Or.inl ⟨mi, by simpa using (findIdx_spec _ _ 0 mi hfi).2, rfl⟩
+    · exact Or.inr rfl
+
 /-- AddDesc for a descriptor that carries only a tag, without the children option, spelled out -/
 theorem addDesc_tagged (ix : Index) (d : Desc) (t : Nat) (ht : t ≠ 0) (hd : d.ann = { isNil := false, tag := t }) :
-    addDesc ix d =
-      (match findIdx (fun md => decide (md.dig = d.dig) && compatible md t 0) (dropChild (addUntagLoop d t 0 ix.manifests.length ix) d.dig).manifests 0 with
-       | some mi => { (dropChild (addUntagLoop d t 0 ix.manifests.length ix) d.dig) with
-                      manifests := (dropChild (addUntagLoop d t 0 ix.manifests.length ix) d.dig).manifests.set mi d }
-       | none => { (dropChild (addUntagLoop d t 0 ix.manifests.length ix) d.dig) with
-                   manifests := (dropChild (addUntagLoop d t 0 ix.manifests.length ix) d.dig).manifests ++ [d] }) := by
+    addDesc ix d = { (dropChild (addUntagLoop d t 0 ix.manifests.length ix) d.dig) with
+      manifests := placeDesc (dropChild (addUntagLoop d t 0 ix.manifests.length ix) d.dig).manifests d t 0 } := by
   unfold addDesc dropChild
   simp [hd, ht, moveChildren]
-  split <;> split <;> simp_all
+  split <;> simp_all
 end Ixd
 
 namespace Ixd
@@ -264,22 +271,20 @@ theorem addDesc_tag (ix : Index) (d : Desc) (t : Nat) (ht : t ≠ 0)
   have hshape : d ∈ (addDesc ix d).manifests ∧
       ∀ e ∈ (addDesc ix d).manifests, e = d ∨ e ∈ (addUntagLoop d t 0 ix.manifests.length ix).manifests := by
     rw [addDesc_tagged ix d t ht hd]
-    split
-    · rename_i mi hfi
-      have hlt := (findIdx_spec _ _ 0 mi hfi).2
-      simp only [Nat.sub_zero, dropChild_manifests] at hlt
+    simp only [dropChild_manifests]
+    rcases placeDesc_shape (addUntagLoop d t 0 ix.manifests.length ix).manifests d t 0 with ⟨mi, hlt, heq⟩ | heq
+    · rw [heq]
       constructor
-      · simp only [dropChild_manifests]
-        exact List.mem_set hlt d
+      · exact List.mem_set hlt d
       · intro e he
-        simp only [dropChild_manifests] at he
         rcases List.mem_or_eq_of_mem_set he with h | h
         · exact Or.inr h
         · exact Or.inl h
-    · constructor
+    · rw [heq]
+      constructor
       · simp
       · intro e he
-        simp only [dropChild_manifests, List.mem_append, List.mem_singleton] at he
+        simp only [List.mem_append, List.mem_singleton] at he
         rcases he with h | h
         · exact Or.inr h
         · exact Or.inl h
